@@ -76,9 +76,10 @@ func SimStmts(info *types.Info, list []ast.Stmt, atom AtomVal, onStmt func(ast.S
 				return o
 			}
 		case *ast.IfStmt:
-			if v.Init != nil && onStmt != nil {
-				if !onStmt(v.Init) {
-					return SimOutcome{Unknown: true, Why: "if-init not modelled"}
+			if v.Init != nil {
+				// an if-initialiser binds new names the atom valuation knows nothing about
+				if onStmt == nil || !onStmt(v.Init) {
+					return SimOutcome{Unknown: true, Why: "if-init not modelled: " + ExprStr(v.Cond)}
 				}
 			}
 			c, ok := EvalBool(info, v.Cond, atom)
